@@ -162,7 +162,7 @@ def _expected_view(doc, fmt):
         key = lambda n: (n[1], n[3], n[4] or 0, n[5])
         ties = Counter((key(notes[a]), key(notes[b])) for a, b in e["ties"])
         ts = [(Fraction(0), st.meter[0], st.meter[1])] + [(e["measure_starts"][i], c, u) for i, (c, u) in sorted(doc.staves[0].meter_changes.items())]
-        out.append({"notes": rows, "rests": rests, "ties": ties, "measure_starts": list(e["measure_starts"]), "ts": ts, "ks": [(Fraction(0), st.key)],
+        out.append({"notes": rows, "rests": rests, "ties": ties, "measure_starts": list(e["measure_starts"]), "ts": ts, "ks": [(Fraction(0), st.key)] + [(e["measure_starts"][i], k_) for i, k_ in sorted(doc.staves[0].key_changes.items())],
                     "clef": [(Fraction(0), st.clef[0], st.clef[1])], "end": e["end"],
                     "measure_names": [(doc.names[i] if doc.names else str(i + 1)) for i in range(len(st.measures))]})
     return out
@@ -306,7 +306,13 @@ def _export_roundtrip(b, pt, sc, d):
              ("tie_chain_over_two_barlines", lambda: G.build_part("P1", 2, notes=[("a0", 0, 8, "B", None, 3, 1, 1), ("a1", 8, 8, "B", None, 3, 1, 1), ("a2", 16, 4, "B", None, 3, 1, 1), ("a3", 20, 4, "C", 1, 4, 1, 1)],
                                                                   ties=[("a0", "a1"), ("a1", "a2")], clefs=[(0, 1, "G", 2)], key=(2, "major"), measures=[(0, 8), (8, 16), (16, 24)])),
              ("two_staves", lambda: G.build_part("P1", 2, notes=[("n0", 0, 4, "C", None, 5, 1, 1), ("n1", 4, 4, "D", None, 5, 1, 1), ("b0", 0, 8, "C", None, 3, 2, 2)],
-                                                 clefs=[(0, 1, "G", 2), (0, 2, "F", 4)], key=(0, "major"), measures=[(0, 8)]))]
+                                                 clefs=[(0, 1, "G", 2), (0, 2, "F", 4)], key=(0, "major"), measures=[(0, 8)])),
+             # voice numbers that are not the staff numbers: two voices on the upper staff, voice 3 on the lower one
+             ("two_voices_on_staff_1_and_voice_3_on_staff_2", lambda: G.build_part("P1", 2, notes=[("n0", 0, 4, "E", None, 5, 1, 1), ("n1", 4, 4, "D", None, 5, 1, 1), ("m0", 0, 8, "G", None, 4, 2, 1),
+                                                                                                    ("b0", 0, 4, "C", None, 3, 3, 2), ("b1", 4, 4, "G", None, 2, 3, 2)],
+                                                                                   clefs=[(0, 1, "G", 2), (0, 2, "F", 4)], key=(0, "major"), measures=[(0, 8)])),
+             ("a_single_staff_whose_only_voice_is_voice_2", lambda: G.build_part("P1", 2, notes=[("n0", 0, 4, "E", None, 4, 2, 1), ("n1", 4, 4, "D", None, 4, 2, 1)],
+                                                                                 clefs=[(0, 1, "G", 2)], key=(0, "major"), measures=[(0, 8)]))]
     for name, mk in parts:
         for ext, save in (("mei", pt.save_mei), ("krn", __import__("partitura.io.exportkern", fromlist=["save_kern"]).save_kern)):
             case = {"part": name, "export": ext}
